@@ -539,17 +539,18 @@ fn fix_unknown_level(spec: &Spec, nodes: &mut [Node], follow: Option<u64>, chang
         if node.opt == SizeOpt::Unknown {
             let me = spec.get(node.id());
             let glob_master = me.map(|e| e.is_global()).unwrap_or(true);
-            let next_glob = next_here.map(|x| spec.get(x).map(|e| e.is_global()).unwrap_or(true)).unwrap_or(false);
-            // a master with a placeholder in its declared path may keep its unknown size only where what follows ends it
-            // under every reading of "sibling / ancestor / root": nothing (end of input, known-size boundary), a root
-            // element, or a master that its declared path names as an ancestor
-            let glob_ok = match (me, next_here) {
-                (Some(_), None) => true,
+            // what follows ends this master for sure — under every reading of "sibling / ancestor / root" — if it is a root
+            // element or a master that this master's declared path names as an ancestor
+            let closes_for_sure = match (me, next_here) {
                 (Some(e), Some(x)) => spec.get(x).map(|nx| nx.is_root()).unwrap_or(false) || e.path.iter().any(|p| matches!(p, PP::Id(i) if *i == x)),
                 _ => false,
             };
-            // ... and none of its own children may look like its sibling (same declared path, e.g. the master nested in
-            // itself) or like one of its declared ancestors: such a child would end it
+            // an element with a placeholder in its own path right behind an unknown-size master could be its child or its
+            // successor: ambiguous, unless it ends the master for sure
+            let next_glob = !closes_for_sure && next_here.map(|x| spec.get(x).map(|e| e.is_global()).unwrap_or(true)).unwrap_or(false);
+            // a master with a placeholder in its declared path may keep its unknown size only where nothing follows (end of
+            // input, known-size boundary) or what follows ends it for sure
+            let glob_ok = me.is_some() && (next_here.is_none() || closes_for_sure);
             let child_ends_it = glob_master && me.map(|e| reaches_closer(spec, e, &node.children)).unwrap_or(true);
             if (glob_master && (!glob_ok || child_ends_it)) || next_glob {
                 node.opt = SizeOpt::Default;
